@@ -269,8 +269,12 @@ def rdgen_files(ex, st, prog, s, n, output):
     def fwrite(e, fr, st_, args, ins):
         f, buf = args
         fobj = e.load(st_, f, None)
+        content = st_.heap.get(buf.obj) if buf.obj is not None else None
+        if isinstance(content, tuple) and content and content[0] == 'randtok':
+            fsops['write'].append((fobj.data[0], buf.len, ('rnd', content[1], buf.off, buf.len), None))
+            return (buf.len, None)
         cells = e.slice_cells(st_, buf)
-        fsops['write'].append((fobj.data[0], len(cells), tuple(id(c) if not isinstance(c, int) else c for c in cells[:4]), cells))
+        fsops['write'].append((fobj.data[0], len(cells), ('cells',) + tuple(id(c) if not isinstance(c, int) else c for c in cells[:4]), cells))
         return (len(cells), None)
 
     def fclose(e, fr, st_, args, ins):
@@ -283,8 +287,17 @@ def rdgen_files(ex, st, prog, s, n, output):
         r, buf = args
         fsops['reads'] += 1
         k = fsops['reads']
-        for i in range(buf.len):
-            e.store(st_, Ptr(buf.obj, buf.path + (buf.off + i,)), _z3.BitVec('rnd!%d!%d' % (k, i), 8))
+        whole = st_.heap.get(buf.obj)
+        full = len(whole) if isinstance(whole, list) else (whole[2] if isinstance(whole, tuple) else -1)
+        if buf.off == 0 and buf.len == full and not buf.path:
+            # the whole buffer is refilled: its content is one fresh block of the random source
+            st_.heap[buf.obj] = ('randtok', k, full)
+            if not e.inputs:
+                e.inputs.append(('int', _z3.BitVec('rndblock', 64)))
+            e.inputs.append(('int', _z3.BitVec('rndblock!%d' % k, 64)))
+        else:
+            for i in range(buf.len):
+                e.store(st_, Ptr(buf.obj, buf.path + (buf.off + i,)), _z3.BitVec('rnd!%d!%d' % (k, i), 8))
         return (buf.len, None)
 
     def fp_join(e, fr, st_, args, ins):
@@ -307,8 +320,11 @@ def rdgen_files(ex, st, prog, s, n, output):
     written = [w[0] for w in fsops['write']]
     res.append(('exactly the s files random0.bin .. random(s-1).bin are written inside the requested directory %s' % outdir,
                 sorted(written) == sorted(want), 'written: %s' % sorted(set(written))[:4]))
-    res.append(('every file gets exactly n/8 bytes in one write', all(w[1] == n // 8 for w in fsops['write']) and len(written) == s,
-                str([w[1] for w in fsops['write']][:4])))
+    per = {}
+    for w in fsops['write']:
+        per[w[0]] = per.get(w[0], 0) + w[1]
+    res.append(('every file receives exactly n/8 = %d bytes in total' % (n // 8), all(v == n // 8 for v in per.values()) and len(per) == s,
+                str(sorted(per.values())[:4])))
     res.append(('every file is closed', sorted(fsops['close']) == sorted(fsops['open']), ''))
     # linux: O_WRONLY 1, O_RDWR 2, O_CREATE 0x40, O_TRUNC 0x200
     fl = fsops.get('flags', [])
@@ -326,7 +342,7 @@ def _rg(s, n, output):
     return lambda ex, st, prog: rdgen_files(ex, st, prog, s, n, output)
 
 
-for _i, (_s, _n, _o) in enumerate([(1, 64, 'target/data'), (3, 20000, 'target/data'), (3, 64, '/abs/out'), (2, 20000, 'rel/nested/dir'), (5, 64, '/x')]):
+for _i, (_s, _n, _o) in enumerate([(1, 64, 'target/data'), (3, 20000, 'target/data'), (3, 64, '/abs/out'), (2, 20000, 'rel/nested/dir'), (5, 64, '/x'), (2, 100000000, '/big')]):
     PYCHECKS['rdgen_files_%d' % _i] = _rg(_s, _n, _o)
 
 
@@ -391,3 +407,133 @@ def rddetector_count(ex, st, prog):
 
 
 PYCHECKS['rddetector_count'] = rddetector_count
+
+
+def rddetector_writer(ex, st, prog):
+    """resultWriter: for every R received, the bytes written are: the name, then ", %0.6f, %0.6f" of (P[j], Q[j]) for every j
+    in order, then a newline; exactly one Done per row. The io.Writer, bufio.Writer and fmt.Fprintf are modelled as
+    appending to one output stream."""
+    import stubs
+    from mem import Ptr, Iface, Opaque, Slice
+    from vals import FReal
+    outstream = []
+
+    def emit(x):
+        if isinstance(x, str):
+            if outstream and isinstance(outstream[-1], str):
+                outstream[-1] += x
+            else:
+                outstream.append(x)
+        else:
+            outstream.append(x)
+
+    def emit_slice(e, st_, sl):
+        cells = e.slice_cells(st_, sl)
+        if len(cells) == 1 and isinstance(cells[0], tuple) and cells[0][0] == 'strtok':
+            emit(cells[0][1])
+        elif all(isinstance(c, int) for c in cells):
+            emit(bytes(cells).decode('utf-8', 'replace'))
+        else:
+            emit(('bytes', len(cells)))
+
+    def w_write(e, fr, st_, args, ins):
+        emit_slice(e, st_, args[1])
+        return (args[1].len, None)
+
+    def bufio_new(e, fr, st_, args, ins):
+        return Ptr(e.new_obj(st_, Opaque('bufw', None)), ())
+
+    def bufw_write(e, fr, st_, args, ins):
+        emit_slice(e, st_, args[1])
+        return (args[1].len, None)
+
+    def bufw_writestring(e, fr, st_, args, ins):
+        emit(args[1])
+        return (0, None)
+
+    def ret_nil(e, fr, st_, args, ins):
+        return None
+
+    def fprintf(e, fr, st_, args, ins):
+        fmtstr = args[1]
+        va = args[2]
+        cells = e.slice_cells(st_, va) if isinstance(va, Slice) else []
+        vals_ = tuple(c.val if isinstance(c, Iface) else c for c in cells)
+        if not vals_ and isinstance(fmtstr, str):
+            # Sprintf of a format without arguments: verbs in it are NOT copied literally
+            emit(fmtstr if '%' not in fmtstr else ('format-without-args', fmtstr))
+        else:
+            emit(('sprintf', fmtstr, vals_))
+        return (0, None)
+
+    def io_writestring(e, fr, st_, args, ins):
+        emit(args[1])
+        return (0, None)
+
+    ex.intr.update({'#opaque.writer.Write': w_write, 'bufio.NewWriter': bufio_new, 'bufio.NewWriterSize': bufio_new,
+                    '(*bufio.Writer).Write': bufw_write, '(*bufio.Writer).WriteString': bufw_writestring,
+                    '(*bufio.Writer).Flush': ret_nil, '(*bufio.Writer).WriteByte': lambda e, fr, st_, a, i: (emit(chr(a[1])) if isinstance(a[1], int) else emit(('byte',)), None)[1],
+                    'fmt.Fprintf': fprintf, 'io.WriteString': io_writestring})
+    rows = [('plain_name.bin', 2), ('rng%20unit%d%s.bin', 3), ('x.dat', 0)]
+    cin = stubs.c_makechan(ex, None, st, {})
+    c = stubs._conc(ex)
+    made = []
+    for name, k in rows:
+        P = [FReal(_z3.Real('P_%s_%d' % (name[:3], j))) for j in range(k)]
+        Q = [FReal(_z3.Real('Q_%s_%d' % (name[:3], j))) for j in range(k)]
+        po = ex.new_obj(st, list(P))
+        qo = ex.new_obj(st, list(Q))
+        ro = ex.new_obj(st, [name, Slice(po, (), 0, k, k), Slice(qo, (), 0, k, k)])
+        c['chans'][cin.data]['q'].append(Ptr(ro, ()))
+        made.append((name, P, Q))
+        for v in P + Q:
+            ex.inputs.append(('float', v.t))
+    c['chans'][cin.data]['closed'] = True
+    wgo = ex.new_obj(st, [0])
+    wg = Ptr(wgo, ())
+    stubs.c_wg_add(ex, None, st, [wg, len(rows)], {})
+    w = Iface('*verif.writer', Opaque('writer', None))
+    fn = prog.funcs[RD + '.resultWriter']
+    s2, _ = ex.call_fn(fn, [cin, w, wg], st)
+    res = []
+    if s2 is None:
+        return [('resultWriter returns when its input channel is closed', False, '; '.join(o.label for o in ex.obls))]
+    cnt = s2.heap.get(stubs._wg_key(wg), 0)
+    res.append(('exactly one Done per row (WaitGroup counter back to zero)', cnt == 0, str(cnt)))
+    want = []
+    for name, P, Q in made:
+        want.append(name)
+        for j in range(len(P)):
+            want.append(('sprintf', ', %0.6f, %0.6f', (P[j], Q[j])))
+        want.append('\n')
+    # normalise both streams: merge adjacent strings
+    def norm(seq):
+        out = []
+        for x in seq:
+            if isinstance(x, str) and out and isinstance(out[-1], str):
+                out[-1] += x
+            else:
+                out.append(x)
+        return out
+
+    def same(a, b):
+        if isinstance(a, str) or isinstance(b, str):
+            return a == b
+        if a[0] != b[0] or a[1] != b[1] or len(a[2]) != len(b[2]):
+            return False
+        return all(isinstance(x, FReal) and isinstance(y, FReal) and x.t.eq(y.t) for x, y in zip(a[2], b[2]))
+    got, exp = norm(outstream), norm(want)
+    ok = len(got) == len(exp) and all(same(a, b) for a, b in zip(got, exp))
+    det = ''
+    if not ok:
+        for i in range(max(len(got), len(exp))):
+            a = got[i] if i < len(got) else None
+            b = exp[i] if i < len(exp) else None
+            if a is None or b is None or not same(a, b):
+                det = 'first difference at token %d: wrote %r, expected %r' % (i, (a if isinstance(a, str) else (a[:2] if a else a)), (b if isinstance(b, str) else (b[:2] if b else b)))
+                break
+    res.append(('each row is: base name, then ", %0.6f, %0.6f" of (P[j], Q[j]) for every column pair in order, then a newline (also for names containing %)', ok, det))
+    return res
+
+
+PYCHECKS['rddetector_writer'] = rddetector_writer
